@@ -123,33 +123,41 @@ def cmd_verify(name):
 
 
 def cmd_run(name, props):
+    """the patch is applied in a scratch worktree of /repo and the checks are pointed at it (VERIF_REPO), so that /repo itself —
+    which other sessions build against — is never modified; the worktree is removed afterwards"""
     meta = load_meta(name)
     if not props:
         props = [meta.get("property") or name.split("-")[0]]
-    st = subprocess.run(["git", "-C", "/repo", "status", "--porcelain"], stdout=subprocess.PIPE, text=True).stdout.strip()
-    if st:
-        print("refusing: /repo has local changes:\n" + st)
-        return 2
-    rc, out = sh(["git", "-C", "/repo", "apply", os.path.join(sdir(name), "patch.diff")])
+    wt = tempfile.mkdtemp(prefix="seeded-run-")
+    os.rmdir(wt)
+    rc, out = sh(["git", "-C", "/repo", "worktree", "add", "-q", "--detach", wt, "HEAD"])
     if rc != 0:
-        print("patch does not apply to /repo HEAD:\n" + out)
+        print("cannot create worktree:\n" + out)
         return 2
     results = meta.setdefault("checks", {})
     try:
+        rc, out = sh(["git", "apply", os.path.join(sdir(name), "patch.diff")], cwd=wt)
+        if rc != 0:
+            print("patch does not apply to /repo HEAD:\n" + out)
+            return 2
         for p in props:
-            rc, out = sh([os.path.join(ROOT, "check"), p], cwd=ROOT, timeout=3600)
+            p0 = subprocess.run([os.path.join(ROOT, "check"), p], cwd=ROOT, env=dict(ENV, VERIF_REPO=wt), stdout=subprocess.PIPE, stderr=subprocess.STDOUT, text=True, timeout=7200)
+            rc, out = p0.returncode, p0.stdout
             lines = out.strip().splitlines()
             viol = [l for l in lines if l.startswith("VIOLATION")]
             detail = [l for l in lines if l.startswith("  fail:") or l.startswith("  diff:") or l.startswith("BROKEN")][:3]
             results[p] = {"exit": rc, "violation_lines": viol[:3], "detail": [d[:400] for d in detail], "summary": lines[-1] if lines else ""}
             kind = "MISSED" if rc == 0 else ("caught (failing input)" if any("no-failing-input-found" not in v for v in viol) else "caught (no-failing-input-found)")
+            if rc not in (0, 1):
+                kind = "ERROR"
             results[p]["outcome"] = kind
             print(f"{name} vs {p}: {kind} :: {lines[-1] if lines else ''}")
             for d in detail[:2]:
                 print("   ", d[:300])
     finally:
-        sh(["git", "-C", "/repo", "checkout", "--", "."])
-        sh(["git", "-C", "/repo", "clean", "-fdq"])
+        sh(["git", "-C", "/repo", "worktree", "remove", "--force", wt])
+        # evidence and regenerated files written by these runs describe the changed tree: restore the committed ones
+        sh("git checkout -- evidence lean/Verif/Gen", cwd=ROOT)
     save_meta(name, meta)
     return 0
 
